@@ -27,6 +27,7 @@ PIPELINES = {
     'rem': ['Remove', 'Idem'],
     'duprem': ['Duplicate', 'Remove', 'ModuleWrap', 'Dependency'],
     'duponly': ['Duplicate', 'Idem'],
+    'rem2': ['Remove', 'Remove2', 'Idem'],
     'dupremonly': ['Duplicate', 'Remove'],
 }
 
@@ -43,6 +44,8 @@ def trafo_table(scen):
                                   'duplicate_subgraph': scen['dup_subgraph']}},
         'Remove': {'classname': 'RemoveKernel', 'module': 'loki.transformations.dependency',
                    'options': {'remove_kernels': scen['rem_kernels']}},
+        'Remove2': {'classname': 'RemoveKernel', 'module': 'loki.transformations.dependency',
+                    'options': {'remove_kernels': scen.get('rem_kernels2', [])}},
     }
     fw = {}
     if scen['fw_suffix']:
@@ -67,7 +70,7 @@ class PlanEngine(Engine):
     fault_kinds = ('adversarial_set_order_runs', 'adversarial_topo_order_runs')
     probes = ('set_order_choice_points', 'topo_choice_points', 'pipelines_with_rename', 'pipelines_with_duplicate',
               'pipelines_with_remove', 'replicated_files', 'files_written', 'build_dir_outside_tree', 'root_given',
-              'cli_failed_both', 'convert_failed', 'path_written_twice')
+              'cli_failed_both', 'convert_failed', 'path_written_twice', 'header_dir_runs')
     nontrivial_rule = ('a run is non-trivial if the order seams had >= 1 choice point with >= 2 alternatives and the '
                        'conversion wrote >= 1 file; distinct = digest of (project, config, pipeline, plan lists, writes)')
     hashseed_independent = False
@@ -88,6 +91,7 @@ class PlanEngine(Engine):
         for P in proj['procs'].values():
             P['external'] = None
             P['ext_mod'] = None
+            P['cinclude'] = g.flip('cinc', 1, 6)
         cfg = BG.gen_config(g, proj, tier)
         cfg['default']['strict'] = False
         cfg['default'].pop('mode', None)
@@ -102,7 +106,7 @@ class PlanEngine(Engine):
             key = next((k for k in cfg['routines'] if k.split('#')[-1] == n), n)
             cfg['routines'].setdefault(key, {})['lib'] = g.pick('lib', ['libA', 'libB'])
         pipe = g.weighted('pipe', [('idem', 3), ('wrap', 3), ('dep', 4), ('idemdep', 4), ('rem', 3), ('dup', 1),
-                                   ('duprem', 1), ('duponly', 3), ('dupremonly', 2)])
+                                   ('duprem', 1), ('duponly', 3), ('dupremonly', 2), ('rem2', 3)])
         if g.flip('oneunitperfile', 2, 3):
             files = []
             for f in proj['files']:
@@ -117,13 +121,15 @@ class PlanEngine(Engine):
             'dup_kernels': g.sample('dupk', kernels, min(len(kernels), 1)) if kernels else [],
             'dup_subgraph': g.flip('dupsub'),
             'rem_kernels': g.sample('remk', kernels, min(len(kernels), 1)) if kernels else [],
+            'rem_kernels2': g.sample('remk2', kernels, min(len(kernels), 1)) if kernels else [],
+            'header_file': g.choose('hdr', max(1, len(proj['files']))) if g.flip('usehdr', 1, 4) else None,
             'fw_suffix': g.pick('fwsuf', [None, None, '.F90', '.f90']),
             'fw_modvars': g.flip('fwmod', 1, 3),
             'build_outside': g.flip('bout'),
             'root': g.flip('root'),
             'set_random': g.flip('setrnd', 4, 5), 'topo_random': g.flip('toporand', 4, 5),
         }
-        if not kernels and pipe in ('dup', 'rem', 'duprem', 'duponly', 'dupremonly'):
+        if not kernels and pipe in ('dup', 'rem', 'duprem', 'duponly', 'dupremonly', 'rem2'):
             scen['pipeline'] = 'idemdep'
         return scen
 
@@ -155,13 +161,14 @@ class PlanEngine(Engine):
                 c = self.clone(s)
                 del c['cfg']['default'][k]
                 yield c
-        order = ['idem', 'wrap', 'dep', 'idemdep', 'rem', 'duponly', 'dupremonly', 'dup', 'duprem']
+        order = ['idem', 'wrap', 'dep', 'idemdep', 'rem', 'rem2', 'duponly', 'dupremonly', 'dup', 'duprem']
         for simpler in order[:order.index(s['pipeline'])]:
             c = self.clone(s)
             c['pipeline'] = simpler
             yield c
         for key, val in (('fw_suffix', None), ('fw_modvars', False), ('build_outside', False), ('root', False),
-                         ('set_random', False), ('topo_random', False), ('dup_subgraph', False), ('mode', 'idem')):
+                         ('set_random', False), ('topo_random', False), ('dup_subgraph', False), ('mode', 'idem'),
+                         ('header_file', None)):
             if s[key] != val:
                 c = self.clone(s)
                 c[key] = val
@@ -179,6 +186,14 @@ class PlanEngine(Engine):
         src = root / 'src'
         src.mkdir(parents=True)
         write_project(scenario['proj'], src)
+        header = None
+        if scenario.get('header_file') is not None and scenario['proj']['files']:
+            # one source file lives in a separate "header" directory that is only given via --header
+            f = scenario['proj']['files'][scenario['header_file'] % len(scenario['proj']['files'])]
+            hdir = src / 'hdr'
+            hdir.mkdir(exist_ok=True)
+            header = hdir / Path(f['path']).name
+            (src / f['path']).rename(header)
         build = (root / 'build') if not scenario['build_outside'] else (root.parent / f'build_{what}')
         build.mkdir(parents=True, exist_ok=True)
         cfg = scenario['cfg']
@@ -192,7 +207,15 @@ class PlanEngine(Engine):
             config['routines'].setdefault(key, {})['role'] = 'driver'
         cfile = root / 'loki.config'
         cfile.write_text(tomli_w.dumps(config))
-        args = [what, f'--mode={scenario["mode"]}', f'--config={cfile}', '--frontend=fp', f'--source={src}',
+        srcargs = [f'--source={src}']
+        if header is not None:
+            # the search paths are the top-level directories without the header directory
+            tops = sorted({p for p in src.iterdir() if p.name != 'hdr'})
+            files_top = [p for p in tops if p.is_file()]
+            srcargs = [f'--source={p}' for p in tops if p.is_dir()] + [f'--source={p}' for p in files_top]
+            srcargs.append(f'--header={header}')
+            run.probe('header_dir_runs')
+        args = [what, f'--mode={scenario["mode"]}', f'--config={cfile}', '--frontend=fp', *srcargs,
                 f'--build={build}', '--log-level=error']
         planfile = root / 'plan.cmake'
         if what == 'plan':
@@ -320,6 +343,9 @@ class PlanEngine(Engine):
                 sig = 'append-differs:rename-pipeline-plans-file-conversion-does-not-write'
             elif not (a - w) and ('Dependency' in pipe or 'ModuleWrap' in pipe) and (w - a):
                 sig = 'append-differs:rename-pipeline-conversion-writes-unplanned-file'
+            elif 'Duplicate' in pipe and not any('_dupl.' in n for _, n in (a ^ w)) and \
+                    any(k.split('#')[-1] in scenario['dup_kernels'] for k in scenario['cfg']['routines']):
+                sig = 'append-differs:duplicated-kernel-has-item-config'
             run.violate('append-differs', f'plan says append {sorted(a - w)[:4]} which the conversion did not write; '
                                           f'conversion wrote {sorted(w - a)[:4]} which the plan does not list', sig=sig)
             return
@@ -327,8 +353,13 @@ class PlanEngine(Engine):
             run.violate('append-duplicates', 'a file is listed twice in LOKI_SOURCES_TO_APPEND')
         # originals: every written file <stem>.<mode>.<ext> derives from the unique source file with that stem
         stems = {}
-        for f in scenario['proj']['files']:
-            stems[Path(f['path']).stem.lower()] = f['path']
+        hdr = None
+        if scenario.get('header_file') is not None and scenario['proj']['files']:
+            hdr = scenario['header_file'] % len(scenario['proj']['files'])
+        relocated = {}
+        for i, f in enumerate(scenario['proj']['files']):
+            relocated[f['path']] = f'hdr/{Path(f["path"]).name}' if i == hdr else f['path']
+            stems[Path(f['path']).stem.lower()] = relocated[f['path']]
         mode = scenario['mode'].replace('-', '_')
         originals = set()
         unknown = []
@@ -360,7 +391,7 @@ class PlanEngine(Engine):
                                                             if m['name'] == name)['procs']
                     for p in ps:
                         if BG.item_config(cfg, BG.item_name(scenario['proj'], p)).get('replicate'):
-                            repl_files.add(('src', f['path']))
+                            repl_files.add(('src', relocated[f['path']]))
             if repl_files & originals:
                 run.probe('replicated_files')
             clear_repl = set()
@@ -381,11 +412,11 @@ class PlanEngine(Engine):
                 for f in scenario['proj']['files']:
                     for kind, name in f['units']:
                         if kind == 'free':
-                            file_of[f'#{name}'] = f['path']
+                            file_of[f'#{name}'] = relocated[f['path']]
                         else:
                             m = next(m for m in scenario['proj']['mods'] if m['name'] == name)
                             for pn in m['procs'] + (m['iface']['procs'] if m.get('iface') else []):
-                                file_of[f'{name}#{pn}'] = f['path']
+                                file_of[f'{name}#{pn}'] = relocated[f['path']]
                 exact_repl = {('src', file_of[n]) for n, k in ref['nodes'].items()
                               if k == 'proc' and n in file_of and BG.item_config(cfg, n).get('replicate')
                               and ref['ignored'].get(n) is False}
